@@ -84,6 +84,19 @@ def run_world_pass(world, pspec, timeout=120.0):
     return fork_call(_child_pass, world, pspec, timeout=timeout)
 
 
+def run_world_pass_cold(world, pspec, timeout=180.0):
+    """Same as run_world_pass, but in a fresh interpreter (see coldpass.py)."""
+    import subprocess
+
+    e = dict(os.environ)
+    e["PYTHONPATH"] = env.VERIF + os.pathsep + e.get("PYTHONPATH", "")
+    p = subprocess.run([sys.executable, "-m", "vecsim.coldpass"], input=pickle.dumps((world, pspec), protocol=4),
+                       capture_output=True, timeout=timeout, env=e, cwd=env.VERIF)
+    if p.returncode != 0 or not p.stdout:
+        raise HarnessError("cold pass failed: " + p.stderr.decode()[-600:])
+    return pickle.loads(p.stdout)
+
+
 def compare_outcomes(world, results):
     """I4: every op's outcome is the same in every pass that executed it.
 
